@@ -117,12 +117,69 @@ def find_anchor(s, m, anchor, bo, bc, where):
 
 
 BARE = set()      # functions injected with their contract only (no proof text, no external_body): the C01 panic probe
+COPIES = {}       # name of a body copy (X11) -> the method it was copied from
+PARAMS = {}       # fn section key -> parameter names on the tree under check (saved as baseline/params.json)
+BASE_PARAMS = {}  # the same on the tree the contracts were written for: a renamed parameter is renamed in the contract text
+
+
+def _param_names(sig):
+    """names of the non-self parameters of a signature text `(a: T, mut b: U, &self, ...)`"""
+    out, depth, cur = [], 0, ''
+    for ch in sig:
+        if ch in '<([{':
+            depth += 1
+        elif ch in '>)]}':
+            depth -= 1
+        if ch == ',' and depth == 0:
+            out.append(cur)
+            cur = ''
+        else:
+            cur += ch
+    out.append(cur)
+    names = []
+    for part in out:
+        part = part.strip()
+        if not part or ':' not in part:
+            continue
+        nm = part.split(':', 1)[0].strip()
+        nm = re.sub(r'^(mut|ref)\s+', '', nm)
+        if re.match(r'^[A-Za-z_][A-Za-z0-9_]*$', nm) and nm != 'self':
+            names.append(nm)
+    return names
 
 
 def apply_fn_sections(s, fnsec, item_lo, item_hi, log, copies, skip=frozenset()):
     from rustscan import next_code_char as next_code_char_
     """apply all sub-sections of one fn; returns new text. Positions recomputed after each edit."""
     name = fnsec.arg.split()[0]
+    # parameter names on this tree; a parameter renamed since the contracts were written is renamed in the contract text
+    key = '%s:%d' % (os.path.basename(fnsec.src), fnsec.lineno)
+    renames = []
+    try:
+        mP = code_mask(s)
+        stP, lsP, boP, bcP = fn_span(s, mP, name, item_lo, item_hi())
+        from rustscan import next_code_char as _ncc
+        poP = _ncc(s, mP, s.index('fn ' + name, lsP), '(')
+        pcP = match_close(s, mP, poP, '(', ')')
+        cur_names = _param_names(s[poP + 1:pcP])
+        PARAMS[key] = cur_names
+        base_names = BASE_PARAMS.get(key)
+        if base_names and len(base_names) == len(cur_names):
+            renames = [(a, b) for a, b in zip(base_names, cur_names) if a != b]
+    except Lost:
+        pass
+    if renames:
+        def _ren(sec):
+            t = Section(sec.kind, sec.arg, sec.lineno, sec.src)
+            body = '\n'.join(sec.body)
+            for a, b in renames:
+                body = re.sub(r'(?<![A-Za-z0-9_])%s(?![A-Za-z0-9_])' % re.escape(a), b, body)
+            t.body = body.split('\n')
+            t.subs = sec.subs
+            return t
+        fnsec = _ren(fnsec)
+        fnsec.subs = [_ren(x) for x in fnsec.subs]
+        log.append(('%s fn %s' % (key, name), 'params-renamed %s' % renames))
     # process sections in an order that keeps earlier anchors valid: we recompute spans each time
     subs = fnsec.subs
     if name in BARE:
@@ -195,7 +252,12 @@ def apply_fn_sections(s, fnsec, item_lo, item_hi, log, copies, skip=frozenset())
             else:
                 le = match_close(s, m, lb)
                 s = s[:le + 1] + '\n' + txt + s[le + 1:]
+        elif sub.kind == 'copybody' and (name in skip or name in BARE):
+            # the method left the subset on this tree: no copy of its body either
+            log.append((where, 'copybody-skipped'))
+            continue
         elif sub.kind == 'copybody':
+            COPIES[sub.arg] = name
             # X11: the body of a trait default method is verified as a free function with the same
             # text (the default itself becomes external_body); payload = spec clauses of the copy
             po = next_code_char_(s, m, s.index('fn ' + name, ls), '(')
@@ -243,6 +305,14 @@ def apply_fn_sections(s, fnsec, item_lo, item_hi, log, copies, skip=frozenset())
 def inject(s, vc_files, skip=frozenset()):
     """returns (text, info) where info has fn->props map, wrapped fn names, root text"""
     info = {'fns': {}, 'items': [], 'rewrites': [], 'lost_fns': {}}
+    PARAMS.clear()
+    BASE_PARAMS.clear()
+    COPIES.clear()
+    try:
+        import json as _json
+        BASE_PARAMS.update(_json.load(open(os.path.join(os.path.dirname(os.path.dirname(os.path.abspath(__file__))), 'baseline', 'params.json'))))
+    except Exception:
+        pass
     LOST_HINTS.clear()
     root_txt = []
     log = []
@@ -470,6 +540,8 @@ def inject(s, vc_files, skip=frozenset()):
             raise Lost('module marker for %s' % mk)
         k = s.find('\n', k) + 1
         s = s[:k] + OPEN + top.text() + CLOSE + s[k:]
+    info['params'] = dict(PARAMS)
+    info['copies'] = dict(COPIES)
     info['lost_hints'] = sorted(LOST_HINTS)
     info['root'] = '\n'.join(root_txt)
     info['log'] = log
